@@ -1058,7 +1058,7 @@ def iter_model(it, fn, name, args, dest_ty, term, caller, depth):
                 if item.variant == 0:
                     break
                 v = deref_val(it, item.fields[0])
-                acc = v if acc is None else bv.binop("Add", acc, v)
+                acc = v if acc is None else (bv.binop("Add", acc, v) if isinstance(acc, Int) and isinstance(v, Int) else it.binop("Add", acc, v, dest_ty))
             if acc is None:
                 iti = it.int_of_ty(dest_ty) or (64, False, "int")
                 return Int(iti[0], iti[1], val=0)
